@@ -69,10 +69,27 @@ func c15(r *Report) propMeta {
 	r.Conjunction("miss-needs-both-bounds", cm, now, hgt)
 	r.CondCount("no-other-branches", cm, 5)
 
+	// the clocks CheckMissReport reads are the CHAIN's: the stored price carries block time / height, never the
+	// validator's own message timestamp (seed C15-4)
+	ssp := "x/feeds/keeper.msgServer.SubmitSignalPrices"
+	r.ArgHas("stored-price-at-block-time", ssp, "types.NewValidatorPrice", 1, 1, "call:Context.BlockTime", "!field:MsgSubmitSignalPrices.Timestamp")
+	r.ArgHas("stored-price-at-block-height", ssp, "types.NewValidatorPrice", 2, 1, "^call:Context.BlockHeight")
+	r.ctorField("price-ctor", ft+".NewValidatorPrice", "ValidatorPrice.Timestamp", 1)
+	r.ctorField("price-ctor", ft+".NewValidatorPrice", "ValidatorPrice.BlockHeight", 2)
+	r.FieldWriters("price-clock-writers", "ValidatorPrice.Timestamp", nil, []string{ft + ".NewValidatorPrice"}, []string{"x/feeds"})
+	r.FieldWriters("price-clock-writers", "ValidatorPrice.BlockHeight", nil, []string{ft + ".NewValidatorPrice"}, []string{"x/feeds"})
+
+	r.LoopVisitsAll("every-requested-validator-checked", "x/oracle/keeper.Keeper.ProcessExpiredRequests", "Keeper.MissReport", LoopOpts{})
+	r.LoopVisitsAll("every-expired-request-processed", "x/oracle/keeper.Keeper.ProcessExpiredRequests", "Keeper.DeleteRequest", LoopOpts{MaxOtherExits: 1}) // the reviewed `break` at the first request that is not yet expired
+	r.LoopVisitsAll("every-validator-checked-for-miss", "x/feeds/keeper.Keeper.CalculatePrices", "OracleKeeper.MissReport", LoopOpts{AllowErrReturn: true})
+
 	r.Rule("C15.R6", "E1 MissReport callers")
 	r.Callers("callers", miss, []string{pe, cp}, []string{pe, cp})
 	// a validator that reported in time: the report is stored before expiry can look for it
 	r.Gate("report-stored-before-deadline", oMS+"ReportData", CallEff("Keeper.AddReport"), []Cond{{Op: "LSS", A: []string{"call:Keeper.GetRequestLastExpired"}, B: []string{"field:MsgReportData.RequestID"}, Want: true, Desc: "request not yet expired"}}, GateOpts{})
+
+	r.Rule("C15.R7", "store-key agreement: every point read/delete addresses a written key family")
+	r.StoreKeyAgreement("store-keys", "oracle", 14, nil)
 
 	return propMeta{
 		Decided: []string{
@@ -82,6 +99,7 @@ func c15(r *Report) propMeta {
 			"R4 feeds calls MissReport only when CheckMissReport returned true for that validator's own price, info, block time/height and the grace period",
 			"R5 CheckMissReport returns the conjunction lastTime<now && lastBlock<height; each bound only moves forward (max-update), price-based candidates count only when a price exists, and the block bound does not depend on the time bound's branch (nor vice versa)",
 			"R6 MissReport has exactly the two callers",
+			"R7 every KV-store Get/Has/Delete of x/oracle uses a key builder of x/oracle/types that some Set of the module also uses (a probe of an iteration prefix or of a sibling family is always-empty state)",
 		},
 		Undecided: []string{"fairness over the four-clock timing space (boundary equalities being the intended ones)", "block time monotonicity"},
 		Assume:    []string{"msg handlers atomic"},
